@@ -218,6 +218,64 @@ fn case(rec: &mut Rec, ctx: &Ctx, idx: u64, rng: &mut ChaCha20Rng) {
       }
     }
   }
+  // --- shares of the SAME sharing on chosen, structured evaluation points (computed from the
+  // polynomial the honest shares lie on, wrapped in the genuine wire format): exactly t of
+  // them, with pairwise distinct points, recover the message like any other t shares
+  if t >= 1 && t <= 16 && idx % 2 == 0 && parsed.len() >= t as usize && parsed.iter().all(|a| a.s.ys.len() == parsed[0].s.ys.len()) {
+    let k = parsed[0].s.ys.len();
+    let mut cos: Vec<Vec<BigUint>> = Vec::new();
+    for j in 0..k {
+      let pts: Vec<(BigUint, BigUint)> = parsed[..t as usize].iter().map(|a| (a.s.x_int(), a.s.y_int(j))).collect();
+      if let Some(c) = bf::interpolate_coeffs(&pts) {
+        cos.push(c);
+      }
+    }
+    if cos.len() == k {
+      let one = BigUint::from(1u8);
+      let p = bf::p();
+      let sh = |k: usize| -> BigUint { BigUint::from(1u8) << k };
+      let two128: BigUint = sh(128);
+      let a_small = BigUint::from(*pick(rng, &[1u32, 2, 77, 255, 12450]));
+      let mut pool: Vec<BigUint> = vec![
+        a_small.clone(), &two128 + &a_small, one.clone(), BigUint::from(2u8), BigUint::from(256u32), BigUint::from(65536u32), sh(32),
+        sh(64) - &one, sh(64), sh(64) + &one, sh(127), &two128 - &one, two128.clone(), &two128 + &one,
+        &two128 + BigUint::from(12450u32), BigUint::from(12450u32), &p - &one, &p - BigUint::from(2u8), sh(127) + sh(64),
+      ];
+      pool.dedup();
+      let mut seen = HashSet::new();
+      pool.retain(|x| seen.insert(x.to_bytes_le()));
+      // the congruent pair (a, 2^128 + a) is always taken when t >= 2; the rest is shuffled
+      let (head, tail) = pool.split_at_mut(2);
+      tail.shuffle(rng);
+      let _ = head;
+      let xs: Vec<BigUint> = if t >= 2 { pool[..t as usize].to_vec() } else { vec![pool[rng.gen_range(0..pool.len())].clone()] };
+      let mut crafted: Vec<Share> = Vec::new();
+      for x in &xs {
+        let mut a = parsed[0].clone();
+        a.s.x = bf::to_le24(x);
+        a.s.ys = (0..k).map(|j| bf::to_le24(&bf::eval_low_first(&cos[j], x))).collect();
+        match Share::from_bytes(&a.encode()) {
+          Some(sh) => crafted.push(sh),
+          None => break,
+        }
+      }
+      if crafted.len() == xs.len() {
+        crafted.shuffle(rng);
+        rec.ev("recover_chosen_points");
+        match recover(&crafted) {
+          Ok(c) if c.get_message() == m => {}
+          other => {
+            rec.violation(
+              "recover-failed:chosen-points",
+              format!("t={} shares of the sharing on pairwise distinct structured points did not recover the message: {:?}", t, other.map(|c| hex_short(&c.get_message())).map_err(|e| e.to_string())),
+              rep(json!({"points": xs.iter().map(|x| x.to_string()).collect::<Vec<_>>(), "shares_hex": crafted.iter().map(|s| hex(&s.to_bytes())).collect::<Vec<_>>() })),
+            );
+            return;
+          }
+        }
+      }
+    }
+  }
   // >= t distinct points with repeated shares anywhere in the list
   if t >= 2 && t <= 16 {
     for pat in [crate::gen::SelPattern::DupsAnywhere, crate::gen::SelPattern::DupsFront, crate::gen::SelPattern::Surplus] {
